@@ -354,6 +354,37 @@ def run(chk: Check) -> None:
             chk.fail("stream-overread", f"{raw.consumed} bytes consumed with max_content_length={mcl}", {"body_len": len(body), "mcl": mcl})
         if res == "ok" and (with_len or terminated) and form != _group(parse_qsl(body.decode(), keep_blank_values=True)):
             chk.fail("limits-change-result", "request form differs from the plain parse", {"body": body.hex(), "mcl": mcl})
+    # request-level limits travel through Request.make_form_data_parser: 0, small, None
+    for i in range(200 if quick else 3000):
+        mfp = rng.choice([None, 0, 1, 2, 5])
+        mfm = rng.choice([None, 0, 3, 20, 1000])
+        nparts = rng.choice([0, 1, 2, 3])
+        fsize = rng.choice([0, 1, 4, 25])
+        B = b"bnd"
+        body = b"".join(b"--bnd\r\nContent-Disposition: form-data; name=\"f%d\"\r\n\r\n" % j + b"x" * fsize + b"\r\n" for j in range(nparts)) + b"--bnd--\r\n"
+        env = {"REQUEST_METHOD": "POST", "CONTENT_TYPE": "multipart/form-data; boundary=bnd", "CONTENT_LENGTH": str(len(body)),
+               "wsgi.input": io.BytesIO(body), "SERVER_NAME": "x", "SERVER_PORT": "80", "wsgi.url_scheme": "http"}
+        req = Request(env)
+        req.max_form_parts = mfp
+        req.max_form_memory_size = mfm
+        try:
+            got = len(list(req.form.items(multi=True)))
+            res = "ok"
+        except RequestEntityTooLarge:
+            res = "413"
+        except Exception as e:  # noqa: BLE001
+            res = type(e).__name__
+        chk.case(("reqlim", mfp, mfm, nparts, fsize), True)
+        chk.count("request-limits:" + res)
+        if res == "ok" and mfp is not None and nparts > mfp:
+            chk.fail("request-parts-limit-ignored", f"{nparts} parts accepted through Request with max_form_parts={mfp}",
+                     {"max_form_parts": mfp, "parts": nparts})
+        if res == "ok" and mfm is not None and nparts > 0 and fsize > mfm:
+            chk.fail("request-memory-limit-ignored", f"field of {fsize} bytes accepted through Request with max_form_memory_size={mfm}",
+                     {"max_form_memory_size": mfm, "field_size": fsize})
+        if res == "413" and (mfp is None or nparts <= mfp) and (mfm is None or len(body) <= mfm):
+            chk.fail("spurious-413", "RequestEntityTooLarge through Request although every limit is respected",
+                     {"max_form_parts": mfp, "max_form_memory_size": mfm, "parts": nparts, "field_size": fsize})
     lines.append("defaults")
     impl.append(f"{Request.max_form_memory_size} {Request.max_form_parts}")
     metas.append(("defaults", None, None))
